@@ -300,6 +300,7 @@ func c17WaitGoroutines(fn string, max int) int {
 			return c
 		}
 		if time.Now().After(deadline) {
+			c17LastLeak = c17Goroutines(string(buf[:n]), fn)
 			return c
 		}
 		if i < 50 {
@@ -308,6 +309,19 @@ func c17WaitGoroutines(fn string, max int) int {
 			time.Sleep(time.Millisecond)
 		}
 	}
+}
+
+// c17LastLeak holds the stacks of the goroutines c17WaitGoroutines gave up on.
+var c17LastLeak string
+
+func c17Goroutines(dump, fn string) string {
+	var out []string
+	for _, g := range strings.Split(dump, "\n\n") {
+		if strings.Contains(g, fn) {
+			out = append(out, g)
+		}
+	}
+	return strings.Join(out, "\n\n")
 }
 
 // c17Recv receives from ch, giving up after the liveness bound.
